@@ -56,6 +56,12 @@ class LibMixin:
             and node.func.value.func.id == "super"
         ):
             return self.super_call(node, st)
+        if (isinstance(node.func, ast.Name) and node.func.id in ("any", "all", "next") and node.args and isinstance(node.args[0], ast.GeneratorExp)
+                and len(node.args[0].generators) == 1 and not node.keywords and node.func.id not in st.locals
+                and len(node.args) <= (2 if node.func.id == "next" else 1)):
+            r = self.lazy_genexp_consumer(node, st)
+            if r is not None:
+                return r
         pos = []
         star_idx = set()
         for i, a in enumerate(node.args):
@@ -92,6 +98,89 @@ class LibMixin:
             return self.call_value(s, fv, args, kwargs, node)
 
         return self.bind(self.ev_list([node.func] + pos + kw_nodes, st), f)
+
+    def lazy_genexp_consumer(self, node, st):
+        """any(<genexp>) / all(<genexp>) / next(<genexp>[, default]) over a concrete spine, with
+        Python's laziness: items after the deciding one are NOT evaluated (so their exceptions
+        and effects do not happen).  None = not applicable (symbolic iterable): generic path."""
+        from .expr import _target_names
+
+        what = node.func.id
+        ge = node.args[0]
+        gen = ge.generators[0]
+        out = []
+        for s0, itv in self.ev(gen.iter, st):
+            if isinstance(itv, Raised):
+                out.append((s0, itv))
+                continue
+            items = self.concrete_items(s0, itv)
+            if items is None:
+                return None
+            names = _target_names(gen.target)
+            saved = {n: s0.locals.get(n) for n in names}
+
+            def finish(s, v):
+                for n, old in saved.items():
+                    if old is None:
+                        s.locals.pop(n, None)
+                    else:
+                        s.locals[n] = old
+                out.append((s, v))
+
+            pending = [s0]
+            for item in items:
+                nxt = []
+                for s in pending:
+                    for s1, o in self.assign(gen.target, item, s):
+                        if o is not None:
+                            finish(s1, o)
+                            continue
+                        conds = [(s1, True)]
+                        for cnd in gen.ifs:
+                            cn = []
+                            for s2, keep in conds:
+                                if keep is not True:
+                                    cn.append((s2, keep))
+                                    continue
+                                for s3, cv in self.ev(cnd, s2):
+                                    if isinstance(cv, Raised):
+                                        cn.append((s3, cv))
+                                    else:
+                                        cn.extend((s4, bool(t)) for s4, t in self.branch(s3, self.truth(s3, cv)))
+                            conds = cn
+                        for s2, keep in conds:
+                            if isinstance(keep, Raised):
+                                finish(s2, keep)
+                            elif keep is False:
+                                nxt.append(s2)
+                            else:
+                                for s3, ev in self.ev(ge.elt, s2):
+                                    if isinstance(ev, Raised):
+                                        finish(s3, ev)
+                                    elif what == "next":
+                                        finish(s3, ev)
+                                    else:
+                                        for s4, t in self.branch(s3, self.truth(s3, ev)):
+                                            if (what == "any" and t) or (what == "all" and not t):
+                                                finish(s4, VBool(z3.BoolVal(what == "any")))
+                                            else:
+                                                nxt.append(s4)
+                pending = nxt
+            for s in pending:
+                if what == "next":
+                    if len(node.args) == 2:
+                        for s2, dv in self.ev(node.args[1], s):
+                            finish(s2, dv)
+                    else:
+                        for n, old in saved.items():
+                            if old is None:
+                                s.locals.pop(n, None)
+                            else:
+                                s.locals[n] = old
+                        out.append(self.raised(s, "StopIteration"))
+                else:
+                    finish(s, VBool(z3.BoolVal(what == "all")))
+        return out
 
     def super_call(self, node, st):
         frame = st.locals.get("__frame__")
